@@ -6,6 +6,8 @@
 //!                     `get_or_init_global_group_data_ctr` through `verif` hooks) + the caller
 //!                     protocol of `Exchange::initiate_group` step by step (reserve / store / stash /
 //!                     use), so that a crash can be placed before or after every single store.
+//!  `G <d0>`           the same, but the `Sessions` live in a real `Matter` object re-hydrated by the real
+//!                     `Matter::startup` (`verif_sessions` hook)
 //!  `e <d0>`           event numbers: the real `Events::push` with a recording KV store
 //!                     (`load_persist` through a `verif` hook); outputs run-length encoded.
 //!  `k <d0> <epoch> <init>`  Check-In counter: the real `CheckInCounter`, the harness is the application
@@ -26,7 +28,7 @@ use std::panic::{catch_unwind, AssertUnwindSafe};
 
 use rs_matter::crypto::{default_crypto, Crypto};
 use rs_matter::dm::clusters::icd_mgmt::{Icd, IcdModeConfig};
-use rs_matter::dm::devices::test::DAC_PRIVKEY;
+use rs_matter::dm::devices::test::{DAC_PRIVKEY, TEST_DEV_ATT, TEST_DEV_COMM, TEST_DEV_DET};
 use rs_matter::error::Error;
 use rs_matter::im::events::Events;
 use rs_matter::im::EventPriority;
@@ -36,6 +38,7 @@ use rs_matter::persist::{
 use rs_matter::sc::checkin::CheckInCounter;
 use rs_matter::tlv::TLVElement;
 use rs_matter::transport::session::Sessions;
+use rs_matter::Matter;
 
 const MASK: u64 = 0x0fff_ffff;
 const U32M: u64 = 1 << 32;
@@ -137,20 +140,41 @@ impl rand_core::CryptoRng for FixedRng {}
 
 // ---------------------------------------------------------------- g: group data counter
 
-fn g_boot(kv: &mut MemKv) -> Sessions {
-    let mut s = Sessions::new();
-    let mut buf = [0u8; 64];
-    // the real start-up path (`Matter::startup` -> `Sessions::load_persist`)
-    let _ = s.load_persist(&mut *kv, &mut buf);
-    s
+/// `g`: a bare `Sessions` re-hydrated by `Sessions::load_persist`;
+/// `G`: a whole `Matter` object re-hydrated by the real `Matter::startup` (ties the start-up wiring)
+enum GBack {
+    Plain(Sessions),
+    Full(Box<Matter<'static>>),
 }
 
-fn run_g(out: &mut Out, case: &Case, words: &[&str]) {
+impl GBack {
+    fn with<R>(&mut self, f: impl FnOnce(&mut Sessions) -> R) -> R {
+        match self {
+            GBack::Plain(s) => f(s),
+            GBack::Full(m) => m.with_state(|st| f(st.verif_sessions())),
+        }
+    }
+}
+
+fn g_boot(kv: &mut MemKv, full: bool) -> GBack {
+    if full {
+        let m = Box::new(Matter::new(&TEST_DEV_DET, TEST_DEV_COMM, &TEST_DEV_ATT, 0));
+        let _ = m.startup(m.kv(&mut *kv));
+        GBack::Full(m)
+    } else {
+        let mut s = Sessions::new();
+        let mut buf = [0u8; 64];
+        let _ = s.load_persist(&mut *kv, &mut buf);
+        GBack::Plain(s)
+    }
+}
+
+fn run_g(out: &mut Out, case: &Case, words: &[&str], full: bool) {
     let mut kv = MemKv::default();
     if let Some(d) = parse_d0(words.get(1).copied()) {
         kv.map.insert(GROUP_DATA_COUNTER_KEY, (d as u32).to_le_bytes().to_vec());
     }
-    let mut sess = g_boot(&mut kv);
+    let mut sess = g_boot(&mut kv, full);
     let mut inflight: Option<(u32, Option<u32>)> = None;
     let mut ready: Vec<u32> = Vec::new();
     let (mut n_crash, mut n_use, mut n_store) = (0u32, 0u32, 0u32);
@@ -163,11 +187,11 @@ fn run_g(out: &mut Out, case: &Case, words: &[&str]) {
                 } else {
                     let rand: u32 = w.get(1).and_then(|x| x.parse().ok()).unwrap_or(0);
                     let crypto = default_crypto(FixedRng(rand), DAC_PRIVKEY);
-                    let r = catch_unwind(AssertUnwindSafe(|| sess.verif_reserve_global_group_data_ctr(&crypto)));
+                    let r = catch_unwind(AssertUnwindSafe(|| sess.with(|s| s.verif_reserve_global_group_data_ctr(&crypto))));
                     match r {
                         Ok(Ok((v, b))) => {
                             inflight = Some((v, b));
-                            let (l, bd) = sess.verif_group_data_ctr_state();
+                            let (l, bd) = sess.with(|s| s.verif_group_data_ctr_state());
                             out.stat(if b.is_some() { "g_reserve_some" } else { "g_reserve_none" }, 1);
                             format!("{} {} {} {}", v, opt(b), l, bd)
                         }
@@ -209,9 +233,9 @@ fn run_g(out: &mut Out, case: &Case, words: &[&str]) {
             "peek" => {
                 let rand: u32 = w.get(1).and_then(|x| x.parse().ok()).unwrap_or(0);
                 let crypto = default_crypto(FixedRng(rand), DAC_PRIVKEY);
-                match catch_unwind(AssertUnwindSafe(|| sess.verif_get_or_init_global_group_data_ctr(&crypto))) {
+                match catch_unwind(AssertUnwindSafe(|| sess.with(|s| s.verif_get_or_init_global_group_data_ctr(&crypto)))) {
                     Ok(Ok(v)) => {
-                        let (l, bd) = sess.verif_group_data_ctr_state();
+                        let (l, bd) = sess.with(|s| s.verif_group_data_ctr_state());
                         format!("{} {} {}", v, l, bd)
                     }
                     Ok(Err(_)) => "err".into(),
@@ -222,8 +246,8 @@ fn run_g(out: &mut Out, case: &Case, words: &[&str]) {
                 n_crash += 1;
                 inflight = None;
                 ready.clear();
-                sess = g_boot(&mut kv);
-                let (l, bd) = sess.verif_group_data_ctr_state();
+                sess = g_boot(&mut kv, full);
+                let (l, bd) = sess.with(|s| s.verif_group_data_ctr_state());
                 format!("{} {}", l, bd)
             }
             _ => "badop".into(),
@@ -502,7 +526,8 @@ fn run_case(out: &mut Out, case: &Case) {
     out.case(case.id, &case.kind);
     let words: Vec<&str> = case.kind.split_whitespace().collect();
     match words.first().copied().unwrap_or("") {
-        "g" => run_g(out, case, &words),
+        "g" => run_g(out, case, &words, false),
+        "G" => run_g(out, case, &words, true),
         "e" => run_e(out, case, &words),
         "k" => run_k(out, case, &words),
         "i" => run_i(out, case, &words),
@@ -734,8 +759,10 @@ pub fn gen(a: &Args) -> String {
                 90..=96 => cr.range(900, 1300),
                 _ => cr.range(2000, if a.thorough { 6000 } else { 3200 }),
             };
-            out.stat("kind_g", 1);
-            (format!("g {}", d0_str(d0)), gen_g(&mut cr, &mut out, sends))
+            // one in five through a whole `Matter` object and the real `Matter::startup` (short ones only)
+            let full = sends <= 80 && cr.chance(1, 5);
+            out.stat(if full { "kind_G_matter_startup" } else { "kind_g" }, 1);
+            (format!("{} {}", if full { "G" } else { "g" }, d0_str(d0)), gen_g(&mut cr, &mut out, sends))
         } else if sel < 60 {
             let d0 = gen_e_d0(&mut cr, &mut out);
             let per_case = if e_budget > 30000 { 30000 } else { e_budget.min(50) };
